@@ -171,6 +171,10 @@ func (rp *replayer) run() {
 		if rp.f.input {
 			break
 		}
+		if time.Now().After(rp.rep.replayUntil) {
+			rp.log.WriteString("\nreplay: time budget of this run for replays is used up; no further attempt\n")
+			break
+		}
 		tries += rp.runScope(vc, declared, scope, tries)
 	}
 	if tries == 0 {
@@ -205,7 +209,7 @@ func (rp *replayer) runScope(vc *VC, declared map[string]bool, scope int, base i
 	var block []string
 	for attempt := 0; attempt < 2 && !rp.f.input; attempt++ {
 		bounded := attempt == 1
-		for k := 0; k < 3 && !rp.f.input; k++ {
+		for k := 0; k < 3 && !rp.f.input && time.Now().Before(rp.rep.replayUntil); k++ {
 			vals, ok := rp.candidate(plan, bounded, block)
 			if !ok {
 				break
